@@ -35,12 +35,14 @@ fn prop_by_id(id: &str) -> Option<Box<dyn Prop>> {
         "C08" => Box::new(c08::C08),
         "C05" => Box::new(lc::LcProp(lc::Which::C05)),
         "C06" => Box::new(lc::LcProp(lc::Which::C06)),
+        // C07 is served by two engines: MC_ENGINE=remote_client selects the second one (the table as told to a remote client)
+        "C07" if std::env::var("MC_ENGINE").ok().as_deref() == Some("remote_client") => Box::new(c13r::C13r("C07")),
         "C07" => Box::new(lc::LcProp(lc::Which::C07)),
         "C09" => Box::new(c09::C09),
         "C10" => Box::new(c10::C10),
         "C11" => Box::new(c11::C11),
         "C12" => Box::new(c12::C12),
-        "C13" => Box::new(c13r::C13r),
+        "C13" => Box::new(c13r::C13r("C13")),
         "C16" => Box::new(c16::C16),
         "C17" => Box::new(c17::C17Prop),
         "C18" => Box::new(c18::C18),
